@@ -1,6 +1,7 @@
 """C12 - time normalisation, overridden-clock comparison and marshalling are exact."""
 import calendar
 import datetime
+import json
 import os
 import random
 import zoneinfo
@@ -87,6 +88,50 @@ def apply_op(timeutils, fixture_mod, op, arg, via_fixture, state):
     raise MachineryError('op %s' % op)
 
 
+def compare_cases(ctx, timeutils, records, label):
+    """Execute comparison cases (with TLC's reference verdicts) on timeutils."""
+    m = 0
+    truth = {'older': 0, 'newer': 0, 'soon': 0}
+    for rec in records:
+        c = rec['c']
+        off = c['off']
+        form = c['form']
+        if form == 'naive' and off != 0:
+            continue
+        now = to_dt(c['now'])
+        tutc = to_dt(rec['tutc'])
+        tz = datetime.timezone(datetime.timedelta(minutes=off))
+        aware = to_dt(rec['local']).replace(tzinfo=tz)
+        t = tutc if form == 'naive' else (aware if form == 'aware' else aware.isoformat())
+        secs = seconds_of(c['thr'])
+        timeutils.set_time_override(now)
+        checks = [('is_older_than', lambda: timeutils.is_older_than(t, secs), rec['older']),
+                  ('is_newer_than', lambda: timeutils.is_newer_than(t, secs), rec['newer'])]
+        edge = c['now'][0] > 1000000 or c['now'][0] < -700000
+        if edge:
+            pass          # is_soon / normalize_time would need now + w, outside the representable range
+        elif form != 'iso':
+            checks.append(('is_soon', lambda: timeutils.is_soon(t, secs), rec['soon']))
+            checks.append(('normalize_time', lambda: timeutils.normalize_time(t) == tutc and
+                           timeutils.normalize_time(t).tzinfo is None, True))
+        else:
+            checks.append(('parse_isotime', lambda: timeutils.parse_isotime(t) == aware and
+                           timeutils.parse_isotime(t).utcoffset() == aware.utcoffset(), True))
+        for name, fn, want in checks:
+            try:
+                got = fn()
+            except Exception as e:
+                got = 'EXC:' + type(e).__name__
+            m += 1
+            if name[3:8] in ('older', 'newer') or name == 'is_soon':
+                truth[name.replace('is_', '').replace('_than', '')] += 1 if want else 0
+            if got != want:
+                ctx.violation({'kind': name, 'family': label, 'form': form, 'want': want, 'got': got if isinstance(got, (bool, str)) else 'other'},
+                              {'case': c, 'now': str(now), 't': str(t), 'seconds': secs, 'expected': want, 'observed': repr(got)},
+                              '%s(%s, %r) with clock %s: specification %s, code %s' % (name, t, secs, now, want, got))
+    return m, truth
+
+
 def run(ctx):
     from oslo_utils import fixture as fixture_mod
     from oslo_utils import timeutils
@@ -143,56 +188,68 @@ def run(ctx):
     res2 = tlc.run('MC_TimeCmp', 'MC_TimeCmp_%s.cfg' % tier, workdir=ctx.work, workers=1,
                    stdout_path=os.path.join(ctx.work, 'cmp.out'), timeout=900)
     ctx.tlc(res2, 'TimeOverride comparisons: NormalizeRight on every case; boundary strictness (ASSUME)')
-    m = 0
-    truth = {'older': 0, 'newer': 0, 'soon': 0}
-    for rec in res2.records:
-        c = rec['c']
-        off = c['off']
-        form = c['form']
-        if form == 'naive' and off != 0:
-            continue
-        now = to_dt(c['now'])
-        tutc = to_dt(rec['tutc'])
-        tz = datetime.timezone(datetime.timedelta(minutes=off))
-        aware = to_dt(rec['local']).replace(tzinfo=tz)
-        t = tutc if form == 'naive' else (aware if form == 'aware' else aware.isoformat())
-        secs = seconds_of(c['thr'])
-        timeutils.set_time_override(now)
-        checks = [('is_older_than', lambda: timeutils.is_older_than(t, secs), rec['older']),
-                  ('is_newer_than', lambda: timeutils.is_newer_than(t, secs), rec['newer'])]
-        edge = c['now'][0] > 1000000 or c['now'][0] < -700000
-        if edge:
-            pass          # is_soon / normalize_time would need now + w, outside the representable range
-        elif form != 'iso':
-            checks.append(('is_soon', lambda: timeutils.is_soon(t, secs), rec['soon']))
-            checks.append(('normalize_time', lambda: timeutils.normalize_time(t) == tutc and
-                           timeutils.normalize_time(t).tzinfo is None, True))
-        else:
-            checks.append(('parse_isotime', lambda: timeutils.parse_isotime(t) == aware and
-                           timeutils.parse_isotime(t).utcoffset() == aware.utcoffset(), True))
-        for name, fn, want in checks:
-            try:
-                got = fn()
-            except Exception as e:
-                got = 'EXC:' + type(e).__name__
-            m += 1
-            if name[3:8] in ('older', 'newer') or name == 'is_soon':
-                truth[name.replace('is_', '').replace('_than', '')] += 1 if want else 0
-            if got != want:
-                ctx.violation({'kind': name, 'form': form, 'want': want, 'got': got if isinstance(got, (bool, str)) else 'other'},
-                              {'case': c, 'now': str(now), 't': str(t), 'seconds': secs, 'expected': want, 'observed': repr(got)},
-                              '%s(%s, %r) with clock %s: specification %s, code %s' % (name, t, secs, now, want, got))
+    m, truth = compare_cases(ctx, timeutils, res2.records, 'lattice')
     timeutils.clear_time_override()
     ctx.cov['evaluations'] += m
     ctx.stage('comparisons', calls=m, true_cases=truth)
     if min(truth.values()) < 20:
         raise MachineryError('vacuity: comparison outcomes one-sided: %s' % truth)
     ctx.sample({'comparison_case': res2.records[0]})
+    # 2b. the same reference on cases drawn over the whole representable range: the harness draws, TLC decides
+    rnd0 = random.Random(ctx.seed + 17)
+    lo, hi = from_dt(datetime.datetime.min)[0] + 3, from_dt(datetime.datetime.max)[0] - 3
+    drawn = []
+    while len(drawn) < (3000 if quick else 60000):
+        now = [rnd0.randint(lo, hi), rnd0.randint(0, 86399), rnd0.choice([0, 1, 999999, rnd0.randint(0, 999999)])]
+        if rnd0.random() < 0.5:
+            rel = [rnd0.choice([0, 0, 1, -1]), rnd0.randint(-86399, 86399), rnd0.randint(-999999, 999999)]
+        else:
+            rel = [rnd0.randint(lo, hi) - now[0], rnd0.randint(-86399, 86399), rnd0.randint(-999999, 999999)]
+        kind = rnd0.random()
+        if kind < 0.4:          # the threshold is the gap itself, or one microsecond to either side of it
+            gap = to_dt(now) - (to_dt(now) + to_delta(rel)) if rnd0.random() < 0.5 else (to_dt(now) + to_delta(rel)) - to_dt(now)
+            gap += datetime.timedelta(microseconds=rnd0.choice([0, 1, -1]))
+            thr = [gap.days, gap.seconds, gap.microseconds]
+        else:
+            thr = [rnd0.choice([0, 0, 1, -1, rnd0.randint(-400, 400)]), rnd0.randint(0, 86399), rnd0.choice([0, 1, 999999, rnd0.randint(0, 999999)])]
+        off = rnd0.choice([0, 0, 60, -300, 330, 765, -720, 1439, -1439, rnd0.randint(-1439, 1439)])
+        form = rnd0.choice(['naive', 'aware', 'iso'])
+        if form == 'naive':
+            off = 0
+        try:
+            t = to_dt(now) + to_delta(rel)
+            t + datetime.timedelta(minutes=off)
+            to_dt(now) + to_delta(thr)
+            to_dt(now) - to_delta(thr)
+            if not (lo + 2 < (t - BASE).days < hi - 2):
+                continue
+        except OverflowError:
+            continue
+        if abs(seconds_of(thr)) > 2 ** 52 / 1e6:
+            continue
+        # the helpers take the threshold as a float number of seconds: keep thresholds that a float carries exactly
+        if Fraction(seconds_of(thr)) != Fraction(thr[0] * 86400 + thr[1]) + Fraction(thr[2], 1000000):
+            thr[2] = 0
+            if Fraction(seconds_of(thr)) != Fraction(thr[0] * 86400 + thr[1]):
+                continue
+        drawn.append({'now': now, 'rel': rel, 'off': off, 'form': form, 'thr': thr})
+    case_file = os.path.join(ctx.work, 'cmp_cases.json')
+    with open(case_file, 'w') as fh:
+        json.dump(drawn, fh)
+    res3 = tlc.run('MC_TimeCmpFile', workdir=ctx.work, workers=1, env={'CASE_FILE': case_file},
+                   stdout_path=os.path.join(ctx.work, 'cmpfile.out'), timeout=1800)
+    ctx.tlc(res3, 'TimeOverride comparisons on %d drawn cases: NormalizeRight; reference verdicts' % len(drawn), counts_as_states=False)
+    if len(res3.records) < len(drawn) * 0.9:
+        raise MachineryError('drawn comparison cases lost in TLC: %d of %d' % (len(res3.records), len(drawn)))
+    m3, truth3 = compare_cases(ctx, timeutils, res3.records, 'drawn')
+    timeutils.clear_time_override()
+    ctx.cov['evaluations'] += m3
+    ctx.stage('drawn-comparisons', cases=len(res3.records), calls=m3, true_cases=truth3)
     # 3. marshalling, named zones (delegated calendar arithmetic)
     rnd = random.Random(ctx.seed)
     k = 0
     zones = ['UTC', 'Europe/Paris', 'America/New_York', 'Asia/Kolkata', 'Pacific/Chatham']
-    for j in range(300 if quick else 5000):
+    for j in range(300 if quick else 30000):
         if j % 3 == 2:
             # anywhere in the representable range (two days clear of its ends, so that zone offsets stay inside)
             dt = datetime.datetime.min + datetime.timedelta(days=rnd.randint(2, 3652055), seconds=rnd.randint(0, 86399),
@@ -271,7 +328,7 @@ def run(ctx):
     lattice = [r['f'] for r in res.records if r['f'] != NONE][:200] or [[1, 0, 0]]
     deltas = [[0, 0, 1], [0, 0, -1], [0, 1, 0], [0, -1, 0], [0, 86399, 999999], [1, 0, 0], [-1, 0, 0], [0, 0, 500000],
               [0, 3600, 0], [0, 59, 999999]]
-    for j in range(400 if quick else 4000):
+    for j in range(400 if quick else 20000):
         timeutils.clear_time_override()
         st = {'fixtures': []}
         ev = []
